@@ -1,6 +1,7 @@
 SPEC = {
     "lean_modules": ["AM.Props.C14"],
     "theorems": [
+        "AM.PutOrder.group_holds_stored_version", "AM.PutOrder.split_put_reorders",
         # repaired ingestion (fixes/F3.diff): full statement over all schedules
         "AM.Workers.final_is_last_submitted", "AM.Workers.fire_then_resolve_not_stale",
         "AM.Workers.resolve_then_fire_not_dropped", "AM.Workers.run_inv", "AM.Workers.not_quiescent_can_step",
@@ -16,6 +17,8 @@ SPEC = {
     ],
     "engines": [
         {"name": "workers", "pkg": "./workers", "search_cases": 10000},
+        # store-and-publish atomicity of the provider: two real concurrent submitters, a dawdling PostStore callback
+        {"name": "putorder", "pkg": "./putorder", "timeout_quick": 120, "search_cases": 600},
     ],
     "rule": "real mem.Alerts provider + dispatch.Dispatcher under synctest; the dispatcher's debug log line 'Received alert' "
             "(emitted by the ingestion worker between channel receive and group insert) is used as a yield point through a "
